@@ -149,6 +149,16 @@ class Creators:
     else:
       self._line_queue.append(gfa_line)
 
+  def _set_version_from_header(self, version):
+    """
+    The version of a Gfa, whose version was not known yet, has been given
+    by assigning the VN tag of its header.
+    """
+    self.__check_line_queue(version)
+    self._version = version
+    self._version_explanation = "specified in header VN tag"
+    self.process_line_queue()
+
   def __check_line_queue(self, version, gfa_line = None):
     """
     Check that the lines kept aside while the version was unknown (and the
